@@ -4,7 +4,7 @@ use crate::tok::{R, W};
 use bed_utils::bed::GenomicRange;
 
 pub const CHROMS: &[&str] = &["chr1", "chr2", "chr10", "chr", "c", "chrX", "chr1_alt", "chrUn_KI270302v1_a", "HLA-DRB1*15:01:01:01",
-    "scaffold_0000000000000000000000000000000000000000000000000000000000000001"];
+    "scaffold_0000000000000000000000000000000000000000000000000000000000000001", ""];
 /// names that are DIFFERENT chromosomes but equal under some common normalisation of another name in the pool
 /// (leading zeros inside a digit run, letter case, surrounding white space, Unicode look-alikes, prefix/suffix)
 pub const CHROM_VARIANTS: &[(&str, &[&str])] = &[
@@ -15,6 +15,8 @@ pub const CHROM_VARIANTS: &[(&str, &[&str])] = &[
     ("c", &["C", "c ", "\u{441}"]),
     ("chrX", &["chrx", "chrX ", "chr23", "X"]),
     ("chr1_alt", &["chr01_alt", "chr1_ALT", "chr1_alt2"]),
+    // the empty name and names that look like "nothing" (a sentinel for "no chromosome yet", a placeholder column)
+    ("", &[" ", ".", "*", "0", "-", "NA", "None"]),
     // long names that agree on a long prefix (8, 16, 32, 64 bytes) or on a long suffix, or differ only in length
     ("chrUn_KI270302v1_a", &["chrUn_KI270302v1_b", "chrUn_KI270302v1_aa", "chrUn_KI270302v1_", "chrUn_KI270302v1", "chrUn_KI270302v2_a", "chrUn_KJ270302v1_a", "ahrUn_KI270302v1_a"]),
     ("HLA-DRB1*15:01:01:01", &["HLA-DRB1*15:01:01:02", "HLA-DRB1*15:01:01:011", "HLA-DRB1*15:01:01:0", "HLA-DRB1*15:01:02:01", "HLA-DRB1*15:01:01:01 "]),
@@ -26,9 +28,13 @@ pub const CHROM_VARIANTS: &[(&str, &[&str])] = &[
         "Scaffold_0000000000000000000000000000000000000000000000000000000000000001"]),
 ];
 /// `n` chromosome names: from the pool; each further one is, half of the time, a near-miss variant of an earlier one
+static FRESH: std::sync::atomic::AtomicU64 = std::sync::atomic::AtomicU64::new(0);
 pub fn gen_chroms(rng: &mut Rng, n: usize) -> Vec<&'static str> {
     let mut v: Vec<&'static str> = vec![];
     for i in 0..n {
+        // a name that has never occurred before in this process (a table of names that fills up, or is keyed by something
+        // that gets reused, meets a new entry)
+        if rng.chance(1, 6) { v.push(Box::leak(format!("ctg{}_{}", rng.below(1 << 30), FRESH.fetch_add(1, std::sync::atomic::Ordering::Relaxed)).into_boxed_str())); continue; }
         if i > 0 && rng.chance(1, 2) {
             let base = *rng.pick(&v);
             if let Some((_, vars)) = CHROM_VARIANTS.iter().find(|(b, _)| *b == base) { v.push(*rng.pick(vars)); continue; }
